@@ -173,4 +173,154 @@ theorem readHandshake_good (vers : Nat) (st : St) (s : Bytes) (h0 : st.hand.leng
           simp only [HGood]
           exact ⟨by omega, by omega, hbuf, by omega, hr⟩
         · rw [if_neg hs]; trivial
+/-! ### halfConn.decrypt: no slice / index expression can fail, whatever the primitives return -/
+
+theorem macPart_ne_panic (hc : HC) (typ pl : Nat) (payload : Bytes) (padLen : Nat) (good auth : Bool) :
+    macPart hc typ pl payload padLen good auth ≠ .panic := by
+  unfold macPart
+  split
+  · split
+    · simp
+    · rename_i hlen
+      have h1 : slice payload (payload.length - hc.macSize - padLen) (payload.length - hc.macSize - padLen + hc.macSize)
+          = .ok ((payload.take (payload.length - hc.macSize - padLen + hc.macSize)).drop (payload.length - hc.macSize - padLen)) := by
+        unfold slice; rw [if_pos]; omega
+      have h2 : sliceTo payload (payload.length - hc.macSize - padLen) = .ok (payload.take (payload.length - hc.macSize - padLen)) := by
+        unfold sliceTo; rw [if_pos]; omega
+      have h3 : sliceFrom payload (payload.length - hc.macSize - padLen + hc.macSize)
+          = .ok (payload.drop (payload.length - hc.macSize - padLen + hc.macSize)) := by
+        unfold sliceFrom; rw [if_pos]; omega
+      simp only [h1, h2, h3]
+      split <;> simp
+  · simp
+
+theorem tls13Part_ne_panic (hc : HC) (typ : Nat) (pt : Bytes) (k : Nat → Nat → DOut)
+    (hk : ∀ t n, k t n ≠ .panic) : tls13Part hc typ pt k ≠ .panic := by
+  unfold tls13Part
+  split
+  · split
+    · simp
+    · split
+      · simp
+      · split
+        · simp
+        · exact hk _ _
+  · exact hk _ _
+
+theorem padLoop_ok (payload : Bytes) (pl : Nat) : ∀ (k i : Nat) (g : Bool), i + k ≤ payload.length →
+    ∃ b, padLoop payload pl k i g = .ok b := by
+  intro k
+  induction k with
+  | zero => intro i g _; exact ⟨g, rfl⟩
+  | succ k ih =>
+    intro i g h
+    unfold padLoop
+    rw [if_pos (by omega)]
+    obtain ⟨b, hb⟩ := idx_ok_of_lt payload (payload.length - 1 - i) (by omega)
+    rw [hb]
+    exact ih (i + 1) _ (by omega)
+
+theorem extractPadding_ok (payload : Bytes) : ∃ r, extractPadding payload = .ok r := by
+  unfold extractPadding
+  split
+  · exact ⟨_, rfl⟩
+  · rename_i h
+    obtain ⟨b, hb⟩ := idx_ok_of_lt payload (payload.length - 1) (by omega)
+    rw [hb]
+    simp only
+    obtain ⟨g, hg⟩ := padLoop_ok payload b.toNat (if 256 > payload.length then payload.length else 256) 0
+      (decide (b.toNat ≤ payload.length - 1)) (by split <;> omega)
+    rw [hg]
+    exact ⟨_, rfl⟩
+
+/-- well-formed read state: a CBC cipher has a non-zero block size and comes with a MAC (true of every suite in the table) -/
+def HC.WF (hc : HC) : Prop := hc.kind = .cbc → (0 < hc.block ∧ hc.hasMac = true)
+
+theorem decrypt_ne_panic (hc : HC) (hwf : hc.WF) (typ : Nat) (payload dec : Bytes) (auth : Bool) :
+    decrypt hc typ payload dec auth ≠ .panic := by
+  unfold decrypt
+  split
+  · simp
+  · simp only
+    cases hk : hc.kind with
+    | none => exact macPart_ne_panic _ _ _ _ _ _ _
+    | stream => exact tls13Part_ne_panic _ _ _ _ (fun t n => macPart_ne_panic _ _ _ _ _ _ _)
+    | aead =>
+      simp only
+      split
+      · simp
+      · rename_i hlen
+        have h1 : sliceTo payload (explicitNonceLen hc) = .ok (payload.take (explicitNonceLen hc)) := by
+          unfold sliceTo; rw [if_pos]; omega
+        have h2 : sliceFrom payload (explicitNonceLen hc) = .ok (payload.drop (explicitNonceLen hc)) := by
+          unfold sliceFrom; rw [if_pos]; omega
+        simp only [h1, h2]
+        split
+        · simp
+        · exact tls13Part_ne_panic _ _ _ _ (fun t n => macPart_ne_panic _ _ _ _ _ _ _)
+    | cbc =>
+      obtain ⟨hb, hm⟩ := hwf hk
+      have hnm : ¬ (¬ hc.hasMac = true) := by simp [hm]
+      simp only
+      rw [if_neg hnm]
+      have hru : roundUp (hc.macSize + 1) hc.block = .ok (hc.macSize + 1 + (hc.block - (hc.macSize + 1) % hc.block) % hc.block) := by
+        unfold roundUp; rw [if_neg]; omega
+      rw [hru]
+      simp only
+      split
+      · simp
+      · rename_i hg
+        have hmod : payload.length % hc.block = 0 := by
+          by_cases h : payload.length % hc.block = 0
+          · exact h
+          · exact absurd (Or.inl h) hg
+        have hmin : ¬ payload.length < explicitNonceLen hc + (hc.macSize + 1 + (hc.block - (hc.macSize + 1) % hc.block) % hc.block) :=
+          fun h => hg (Or.inr h)
+        -- the part behind the IV is a whole number of blocks
+        have hbody : ∃ body : Bytes, stripIV hc.block (explicitNonceLen hc) payload = .ok body ∧ body.length % hc.block = 0 := by
+          unfold stripIV
+          by_cases he : explicitNonceLen hc > 0
+          · rw [if_pos he]
+            have henl : explicitNonceLen hc = hc.block := by
+              unfold explicitNonceLen at he ⊢
+              rw [hk] at he ⊢
+              simp only at he ⊢
+              split
+              · rfl
+              · rename_i hv; rw [if_neg hv] at he; omega
+            have h1 : sliceTo payload (explicitNonceLen hc) = .ok (payload.take (explicitNonceLen hc)) := by
+              unfold sliceTo; rw [if_pos]; omega
+            have h2 : sliceFrom payload (explicitNonceLen hc) = .ok (payload.drop (explicitNonceLen hc)) := by
+              unfold sliceFrom; rw [if_pos]; omega
+            simp only [h1, h2]
+            have h3 : (payload.take (explicitNonceLen hc)).length = hc.block := by
+              rw [List.length_take, henl]; omega
+            rw [if_pos h3]
+            refine ⟨_, rfl, ?_⟩
+            rw [List.length_drop, henl]
+            have hle : hc.block ≤ payload.length := by omega
+            have := Nat.sub_mod_eq_zero_of_mod_eq (m := payload.length) (n := hc.block) (k := hc.block) (by rw [hmod, Nat.mod_self])
+            exact this
+          · rw [if_neg he]; exact ⟨payload, rfl, hmod⟩
+        obtain ⟨body, hbe, hbm⟩ := hbody
+        rw [hbe]
+        simp only
+        rw [if_neg (by omega)]
+        obtain ⟨r, hr⟩ := extractPadding_ok (if dec.length = body.length then dec else body)
+        rw [hr]
+        exact tls13Part_ne_panic _ _ _ _ (fun t n => macPart_ne_panic _ _ _ _ _ _ _)
+
+/-- only an authenticated record is ever delivered by a read state that has a cipher
+    (outside the TLS 1.3 change_cipher_spec bypass) -/
+theorem macPart_plain_auth (hc : HC) (typ pl : Nat) (payload : Bytes) (padLen : Nat) (good auth : Bool) (t n : Nat)
+    (hm : hc.hasMac = true) (h : macPart hc typ pl payload padLen good auth = .plain t n) : auth = true := by
+  by_cases hag : (auth && good) = true
+  · simp at hag; exact hag.1
+  · unfold macPart at h
+    rw [if_pos hm] at h
+    split at h
+    · simp at h
+    · simp only at h
+      split at h <;> simp at h
+
 end ZV.C32
